@@ -3,7 +3,6 @@ package c07
 
 import (
 	"encoding/json"
-	"errors"
 	"fmt"
 	"strings"
 	"sync"
@@ -167,13 +166,6 @@ func judge(c Case, w *vkit.W) {
 		if err := s.Scan(t); err != nil || !s.Equal(a) {
 			w.Fail(c, "scan", fmt.Sprintf("Scan(%v) -> %v, %v", t, s, err))
 		}
-		keep := a
-		for _, src := range []any{"2020-01-01", []byte("2020-01-01"), nil, 5, int64(5), &t, 1.5, true} {
-			if err := a.Scan(src); !errors.Is(err, date.ErrInvalidType) || !a.Equal(keep) {
-				w.Fail(c, "scan-non-time", fmt.Sprintf("Scan(%T) = %v (receiver %v); want wrapped ErrInvalidType and an unchanged receiver", src, err, a))
-				a = keep
-			}
-		}
 	case "fromtime":
 		t := time.Unix(c.Sec, c.Nsec).In(location(c))
 		if t.IsZero() {
@@ -251,7 +243,7 @@ func TestCheck(t *testing.T) {
 		return
 	}
 	r.Rule("Oracle: independent day ordinals (Hinnant's civil-from-days, self-tested against package time). Pair cases: exactly one of Before/Equal/After in ordinal order and mirrored; Sub and DaysBetween equal the ordinal difference within time.Duration's range; IsZero iff 0001-01-01. " +
-		"Add: floor-normalise months into years, then day arithmetic on ordinals. AddDuration: ordinal + floor(duration / 24h). Time(): midnight UTC with Unix() = ordinal x 86400; Value(); Scan(time) and Scan(non-time). FromTime: civil date of floor((sec + zone offset) / 86400), zero instants skipped. " +
+		"Add: floor-normalise months into years, then day arithmetic on ordinals. AddDuration: ordinal + floor(duration / 24h). Time(): midnight UTC with Unix() = ordinal x 86400; Value(); Scan(time). FromTime: civil date of floor((sec + zone offset) / 86400), zero instants skipped. " +
 		"Non-trivial: pairs/steps that cross a month or year boundary. Distinct by construction (enumerations, grids) or by hash (random, rapid).")
 	r.Regress(func(raw json.RawMessage, w *vkit.W) error {
 		var c Case
